@@ -59,10 +59,14 @@ class Named(object):
         return len(self.items or ())
 
     def __eq__(self, other):
-        return self is other
+        # equal-but-distinct targets exist on purpose: the trace must go by identity, not equality
+        return isinstance(other, Named) and other.name == self.name
+
+    def __ne__(self, other):
+        return not self == other
 
     def __hash__(self):
-        return id(self)
+        return hash(self.name)
 
 
 class Probe(object):
@@ -82,6 +86,8 @@ class Probe(object):
             return Named('long%d_' % self.n + 'x' * 90)
         if b == 'unicode':
             return Named('tärget%d_é' % self.n)
+        if b == 'clone':
+            return Named(getattr(t, 'name', 'anon'), getattr(t, 'items', None))     # equal to t, not t
         return Named('t%d' % self.n)
 
     def __repr__(self):
@@ -110,7 +116,7 @@ def gen_spec(draw, d, must_fail, counter):
     if k == 'leaf':
         if must_fail:
             return ['fail', draw(S_(['path', 'tstep', 'glomerror', 'valueerror', 'check', 'match', 'sunbound', 'path', 'tstep'])), n]
-        return ['ok', draw(S_(['plain', 'plain', 'plain', 'long', 'unicode'])), n]
+        return ['ok', draw(S_(['plain', 'plain', 'plain', 'long', 'unicode', 'clone'])), n]
     sub = lambda mf: gen_spec(draw, d - 1, mf, counter)
     if k in ('tuple', 'pipe'):
         m = draw(st.integers(1, 3))
@@ -460,6 +466,47 @@ def check_trace(err, root, target, where):
     return parsed, path, wrapped
 
 
+def trace_value(value, maxlen):
+    s_ = bbrepr(value).replace("\\'", "'")
+    if len(s_) > maxlen:
+        try:
+            suffix = '... (len=%s)' % len(value)
+        except Exception:
+            suffix = '...'
+        s_ = s_[:maxlen - len(suffix)] + suffix
+    return s_
+
+
+def render_linear(path, wrapped, width=78):
+    """the exact lines of a trace without branch points (rules R1-R4, R6 of DESIGN.md section 4 / C05):
+    Target line iff the object differs BY IDENTITY from the previously shown one; completed steps of a chain
+    before its failing step; a level's own error (when it is not the one leaving glom and not its child's)
+    right after its Spec line"""
+    lines = []
+    shown = [object()]
+
+    def entry(target, spec):
+        if target is not shown[0]:
+            pre = ' - Target: '
+            lines.append(pre + trace_value(target, width - len(pre)))
+        shown[0] = target
+        pre = ' - Spec: '
+        lines.append(pre + trace_value(spec, width - len(pre)))
+
+    for i, n in enumerate(path):
+        entry(n.target, n.spec)
+        nxt = path[i + 1] if i + 1 < len(path) else None
+        child_err = nxt.exc if nxt is not None else None
+        if n.exc is not None and n.exc is not wrapped and n.exc is not child_err:
+            lines.append(' - ' + exc_line(n.exc))
+        if nxt is not None and chainlike(n.spec):
+            for c in n.children:
+                if c is nxt:
+                    break
+                entry(c.target, c.spec)
+    return lines
+
+
 def check(recipe, ctx):
     r = recipe['spec']
     spec = build(r)
@@ -481,6 +528,16 @@ def check(recipe, ctx):
         ctx.label('not-wrapped')
         return
     parsed, path, wrapped = check_trace(err, root, target, where)
+    # exact comparison for traces without branch points
+    if all(p[0] == 0 and p[1] == '-' for p in parsed):
+        failed_off_path = any(c.exc is not None and c not in path for n in path for c in n.children)
+        if not failed_off_path:
+            ctx.label('linear-exact')
+            exp_lines = render_linear(path, wrapped)
+            got_lines = str(err).split('\n')[2:2 + len(exp_lines)]
+            if [ADDR.sub('', l) for l in got_lines] != [ADDR.sub('', l) for l in exp_lines]:
+                raise Mismatch('linear-trace', '%s: expected the trace to start with\n%s\nbut it is\n%s'
+                               % (where, '\n'.join(exp_lines), str(err)))
     # the untraced message has the same structure
     try:
         t_plain = str(plain)
@@ -524,6 +581,6 @@ def check(recipe, ctx):
 
 SUBS = [
     Sub('trace', check, gen=gen, quick=3000, thorough=10000,
-        floors={'branch-point': 0.1, 'recovered-branch': 0.1, 'depth-3': 0.05}),
+        floors={'branch-point': 0.1, 'recovered-branch': 0.1, 'depth-3': 0.05, 'linear-exact': 0.1}),
     fuzzrun.fuzz_sub('fuzz-trace', 'hyp:c05:trace', runs=30000, campaigns=4, replay_sub='trace'),
 ]
